@@ -52,12 +52,15 @@ Section CT.
     | VProt => match ctx with Some c => subclass c owner | None => false end
     end.
 
+  (* the nearest declaration of that name decides; a static field hidden by an instance field of a subclass
+     (or the other way round) is not reachable through that subclass *)
+  Definition find_field (c f : string) : option (cdecl * field) :=
+    let l := flat_map (fun cd => map (fun fd => (cd, fd)) (filter (fun fd => String.eqb (fd_name fd) f) (cd_fields cd))) (chain c) in
+    hd_error l.
   Definition find_ifield (c f : string) : option (cdecl * field) :=
-    let l := flat_map (fun cd => map (fun fd => (cd, fd)) (filter (fun fd => negb (fd_static fd) && String.eqb (fd_name fd) f) (cd_fields cd))) (chain c) in
-    hd_error l.
+    match find_field c f with Some (cd, fd) => if fd_static fd then None else Some (cd, fd) | None => None end.
   Definition find_sfield (c f : string) : option (cdecl * field) :=
-    let l := flat_map (fun cd => map (fun fd => (cd, fd)) (filter (fun fd => fd_static fd && String.eqb (fd_name fd) f) (cd_fields cd))) (chain c) in
-    hd_error l.
+    match find_field c f with Some (cd, fd) => if fd_static fd then Some (cd, fd) else None | None => None end.
 
   (* overload resolution on static types *)
   Definition ty_cost (pt at_ : ty) : option nat :=
@@ -399,11 +402,21 @@ Section CT.
     forallb (fun c => sets_field f c || negb (s_sets f c)) body &&
     forallb (fun c => match c with SExpr (EFieldSet EThis g v) => negb (String.eqb f g) || negb (e_sets f v) | _ => true end) body.
 
+  (* no two members of one class with the same name and parameter types *)
+  Fixpoint nodup_sigs (l : list (string * list ty)) : bool :=
+    match l with
+    | [] => true
+    | (n, ts) :: r => negb (existsb (fun q => String.eqb n (fst q) && tys_eqb ts (snd q)) r) && nodup_sigs r
+    end.
+
   Definition ccheck_class (cd : cdecl) : bool :=
     let c := cd_name cd in
     let icx := mkCx (Some c) false false in
     let scx := mkCx (Some c) true false in
     match cd_base cd with Some b => match cls b with Some bd => match cd_kind bd with KStatic => false | _ => true end | None => false end | None => true end &&
+    nodup_sigs (map (fun md => (md_name md, ptys (md_params md))) (cd_meths cd)) &&
+    nodup_sigs (map (fun ct => (EmptyString, ptys (ct_params ct))) (cd_ctors cd)) &&
+    nodup_names (map fd_name (cd_fields cd)) &&
     forallb (fun fd =>
                known_ty (fd_ty fd) && negb (is_void (fd_ty fd)) &&
                match fd_init fd with
@@ -431,7 +444,7 @@ Section CT.
                        end
                    | None => false
                    end
-               | None => match ct_super ct with None => true | Some _ => false end
+               | None => match ct_super ct with None | Some [] => true | Some _ => false end   (* implicit root class: only `super()` *)
                end &&
                match cchecks kx TVoid G (ct_body ct) with Some _ => true | None => false end &&
                forallb (fun fd => negb (fd_final fd) || fd_static fd || match fd_init fd with Some _ => true | None => final_once (fd_name fd) (ct_body ct) end)
